@@ -7,6 +7,8 @@ import FimVerif.Proofs.Lemmas.C08Owned
 import FimVerif.Proofs.Lemmas.C08Ports
 import FimVerif.Proofs.Lemmas.C08Shared
 import FimVerif.Proofs.Lemmas.C08Prune
+import FimVerif.Proofs.Lemmas.C08Ops
+import FimVerif.Proofs.Lemmas.C08Names
 /-!
 # C08 — removal and disconnection delete exactly the owned structure and nothing else
 
@@ -421,5 +423,215 @@ theorem prune_covers_partial (g : G) (hI : InvCP g = true) (hP : InvPeer g = tru
    (pruneDel_covers g ns cs ss is).2⟩
 
 example : HypPrune exG [10] [11] [] [14] = true ∧ sameSet (pruneDel exG [10] [11] [] [14]) [10, 11, 12, 13, 14, 15, 30, 21] = true := by decide
+
+
+/-! ## Exactness from well-formedness alone (wave 3)
+
+`WF g` is one decidable predicate on the pre-state (containment and peering invariants, distinct link ends with no two in
+one interface family, no parallel edges, every ServicePort on one service, no DedicatedPort below a port); the driver
+evaluates it on every correspondence case.  No separation hypothesis, no restriction on the number of ends a link has inside
+what is removed, no chained hypothesis for `prune`.  `OwnedS g R` is the declarative owned set of the roots `R`
+(`Proofs/Lemmas/C08Full.lean`): below a root, or the service-side port of an interface below a root, or a Link that joined
+at least two connection points of which at least one is owned and at most one is not.  The proofs carry the invariant
+`InvA g A` (`LinkOK`: the links of the deletion list are determined by its connection points; family, downward and port
+closure) through every `delete_node`, so the same lemmas serve a call on the pre-state and a call after any number of
+earlier calls. -/
+
+/-- **`Topology.remove_node`** -/
+theorem remove_node_exact_wf (g : G) (hW : WF g = true) (n : Nat) (hc : g.cls? n = some .node)
+    (hk : g.kind? n ≠ some kFacility) : ∃ D, removeNodeApi g n = .ok (g.minus D) ∧ ∀ y, y ∈ D ↔ OwnedS g [n] y := by
+  have := removeNodeApi_resA g hW [] (invA_nil g) n hc hk (by simp)
+  rw [minus_nil] at this
+  exact resA_exact g hW n hc (by decide) _ this
+
+/-- **`Topology.remove_facility`** -/
+theorem remove_facility_exact_wf (g : G) (hW : WF g = true) (n : Nat) (hc : g.cls? n = some .node)
+    (hk : g.kind? n = some kFacility) : ∃ D, removeFacilityApi g n = .ok (g.minus D) ∧ ∀ y, y ∈ D ↔ OwnedS g [n] y := by
+  have := removeFacilityApi_resA g hW [] (invA_nil g) n hc hk (by simp)
+  rw [minus_nil] at this
+  exact resA_exact g hW n hc (by decide) _ this
+
+/-- **`Topology.remove_switch`** -/
+theorem remove_switch_exact_wf (g : G) (hW : WF g = true) (n : Nat) (hc : g.cls? n = some .node)
+    (hk : g.kind? n = some kSwitch) : ∃ D, removeSwitchApi g n = .ok (g.minus D) ∧ ∀ y, y ∈ D ↔ OwnedS g [n] y := by
+  have := removeSwitchApi_resA g hW [] (invA_nil g) n hc hk (by simp)
+  rw [minus_nil] at this
+  exact resA_exact g hW n hc (by decide) _ this
+
+/-- **`Node.remove_component`** -/
+theorem remove_component_exact_wf (g : G) (hW : WF g = true) (c : Nat) (hc : g.cls? c = some .comp) :
+    ∃ D, removeComponentApi g c = .ok (g.minus D) ∧ ∀ y, y ∈ D ↔ OwnedS g [c] y := by
+  have := removeComponentApi_resA g hW [] (invA_nil g) c hc (by simp)
+  rw [minus_nil] at this
+  exact resA_exact g hW c hc (by decide) _ this
+
+/-- **`Topology.remove_network_service` / `Node.remove_network_service`** -/
+theorem remove_service_exact_wf (g : G) (hW : WF g = true) (s : Nat) (hc : g.cls? s = some .ns) :
+    ∃ D, removeNsApi g s = .ok (g.minus D) ∧ ∀ y, y ∈ D ↔ OwnedS g [s] y := by
+  have := removeNsApi_resA g hW [] (invA_nil g) s hc (by simp)
+  rw [minus_nil] at this
+  exact resA_exact g hW s hc (by decide) _ this
+
+/-- **`Topology.remove_link`**: the Link and the ServicePorts it peered, for a Link with any number of ends -/
+theorem remove_link_exact_wf (g : G) (hW : WF g = true) (l : Nat) (hc : g.cls? l = some .link) :
+    ∃ D, removeLinkApi g l = .ok (g.minus D) ∧ ∀ y, y ∈ D ↔ OwnedLink g l y := by
+  refine ⟨_, removeLinkApi_wf g hW l hc, fun y => ?_⟩
+  simp [OwnedLink, spEnds, List.mem_filter]
+
+/-- **`Interface.remove_child_interface`**, with the parent handle's cache -/
+theorem remove_child_exact_wf (g : G) (hW : WF g = true) (h : List IfH) (p c : Nat) (hk : g.kind? p = some kDedicatedPort)
+    (hpc : g.cls? p = some .cp) (hps : isSub g p = false) (hcp : c ∈ g.nbrs p .connects .cp) :
+    ∃ D, removeChild g h p c = .ok (g.minus D, hDrop h c) ∧ ∀ y, y ∈ D ↔ OwnedS g [c] y := by
+  obtain ⟨D, h1, h2, _⟩ := removeChild_wf g hW h p c hk hpc hps hcp
+  exact ⟨D, h1, h2⟩
+
+/-- **`NetworkService.disconnect_interface`**: nothing changes when the interface has no service-side port; otherwise that
+port and the Link created with it go, and the handle loses exactly that port -/
+theorem disconnect_exact_wf (g : G) (hW : WF g = true) (h : List IfH) (i : Nat) (hc : g.cls? i = some .cp) :
+    ((∀ p, ¬ PortOf g i p) ∧ disconnect g h i = .ok (g, h)) ∨
+    ∃ p D, PortOf g i p ∧ disconnect g h i = .ok (g.minus D, hDrop h p) ∧ ∀ y, y ∈ D ↔ y = p ∨ LinkOf g i y := by
+  rcases disconnect_wf g hW h i hc with h0 | ⟨p, h1, h2, h3⟩
+  · exact Or.inl h0
+  · exact Or.inr ⟨p, _, h1, h2, h3⟩
+
+/-- **`NetworkService.unpeer`**: the two facing ServicePorts `i`, `p` found by the peering search and their Link -/
+theorem unpeer_exact_wf (g : G) (hW : WF g = true) (ha hb : List IfH) (a b i p : Nat)
+    (hac : g.cls? a = some .ns) (hbc : g.cls? b = some .ns) (hab : a ≠ b)
+    (hha : ∀ y, y ∈ hIds ha ↔ y ∈ freshIfs g a) (hhb : ∀ y, y ∈ hIds hb ↔ y ∈ freshIfs g b)
+    (hfind : findPeering g ha hb = some (i, p)) :
+    ∃ D, unpeer g ha hb = .ok (g.minus D, hDrop ha i, hDrop hb p) ∧ ∀ y, y ∈ D ↔ OwnedS g [i] y := by
+  obtain ⟨D, h1, h2, _⟩ := unpeer_wf g hW ha hb a b i p hac hbc hab hha hhb hfind
+  exact ⟨D, h1, h2⟩
+
+/-- **prune_exact, full strength**: for *any* marking of a well-formed topology — distinct non-facility nodes, components,
+services and interfaces attached to services, nested in each other or not, sharing links or not, in any order —
+`prune` succeeds and deletes exactly the owned structure of the marked elements. -/
+theorem prune_exact_wf (g : G) (hW : WF g = true) (ns cs ss is : List Nat) (hnd : ns.Nodup)
+    (hn : ∀ n ∈ ns, g.cls? n = some .node ∧ g.kind? n ≠ some kFacility) (hc : ∀ c ∈ cs, g.cls? c = some .comp)
+    (hs : ∀ s ∈ ss, g.cls? s = some .ns) (hi : ∀ i ∈ is, g.cls? i = some .cp ∧ isSub g i = false) :
+    ∃ D, prune g ns cs ss is = .ok (g.minus D) ∧ ∀ y, y ∈ D ↔ OwnedS g (ns ++ cs ++ ss ++ is) y :=
+  prune_full g hW ns cs ss is hnd hn hc hs hi
+
+/-- the same calls **after** any sequence of earlier user-level calls (the deletion list `A` they left satisfies `InvA`):
+the result is `A` plus what the element owns -/
+theorem remove_after_wf (g : G) (hW : WF g = true) (A : List Nat) (hA : InvA g A) (x : Nat) (hxA : x ∉ A) :
+    (g.cls? x = some .node → g.kind? x ≠ some kFacility → ResA g A (Own g x) (removeNodeApi (g.minus A) x)) ∧
+    (g.cls? x = some .comp → ResA g A (Own g x) (removeComponentApi (g.minus A) x)) ∧
+    (g.cls? x = some .ns → ResA g A (Own g x) (removeNsApi (g.minus A) x)) :=
+  ⟨fun hc hk => removeNodeApi_resA g hW A hA x hc hk hxA, fun hc => removeComponentApi_resA g hW A hA x hc hxA,
+   fun hc => removeNsApi_resA g hW A hA x hc hxA⟩
+
+/-! ### Handles, from well-formedness alone -/
+
+/-- **handle_fresh (`disconnect_interface`)**: whatever service handle the call goes through -/
+theorem handle_fresh_disconnect_wf (g : G) (hW : WF g = true) (h : List IfH) (s i : Nat) (g' : G) (h' : List IfH)
+    (hs : g.cls? s = some .ns) (hrun : disconnect g h i = .ok (g', h'))
+    (hh : ∀ y, y ∈ hIds h ↔ y ∈ freshIfs g s) : ∀ y, y ∈ hIds h' ↔ y ∈ freshIfs g' s :=
+  disconnect_fresh_wf g hW h s i g' h' hs hrun hh
+
+/-- **handle_fresh (`remove_child_interface`)** -/
+theorem handle_fresh_removeChild_wf (g : G) (hW : WF g = true) (h : List IfH) (p c : Nat)
+    (hk : g.kind? p = some kDedicatedPort) (hpc : g.cls? p = some .cp) (hps : isSub g p = false)
+    (hcp : c ∈ g.nbrs p .connects .cp) (hh : ∀ y, y ∈ hIds h ↔ y ∈ freshIfs g p) :
+    ∃ g' h', removeChild g h p c = .ok (g', h') ∧ ∀ y, y ∈ hIds h' ↔ y ∈ freshIfs g' p :=
+  removeChild_fresh_wf g hW h p c hk hpc hps hcp hh
+
+/-- **handle_fresh (`unpeer`)**, both handles -/
+theorem handle_fresh_unpeer_wf (g : G) (hW : WF g = true) (ha hb : List IfH) (a b i p : Nat)
+    (hac : g.cls? a = some .ns) (hbc : g.cls? b = some .ns) (hab : a ≠ b)
+    (hha : ∀ y, y ∈ hIds ha ↔ y ∈ freshIfs g a) (hhb : ∀ y, y ∈ hIds hb ↔ y ∈ freshIfs g b)
+    (hfind : findPeering g ha hb = some (i, p)) :
+    ∃ g' ha' hb', unpeer g ha hb = .ok (g', ha', hb') ∧
+      (∀ y, y ∈ hIds ha' ↔ y ∈ freshIfs g' a) ∧ (∀ y, y ∈ hIds hb' ↔ y ∈ freshIfs g' b) := by
+  obtain ⟨D, h1, _, h3, h4⟩ := unpeer_wf g hW ha hb a b i p hac hbc hab hha hhb hfind
+  exact ⟨_, _, _, h1, h3, h4⟩
+
+/-- non-vacuity: the running examples are well-formed — a three-ended shared link next to a sub-interface (`exG`), peered
+services (`exPeer`), equal-named ports (`exNames`), a connected sub-interface (`exSub`), a link with two of its three
+ends inside the removed service (`exShared`, where the separation hypothesis of `removeNs_exact` fails) -/
+example : WF exG = true ∧ WF exPeer = true ∧ WF exNames = true ∧ WF exSub = true ∧ WF exShared = true := by decide
+
+/-- node `1` (component `2`, service `3`, ports `4`, `5`) and node `6` (service `7`, port `8`); link `9` joins `4`, `5`
+and `8`; both nodes and the component are marked: the link goes although no single marked element owns it -/
+def exPrune : G :=
+  { nodes := [⟨1, .node, 0, "n1"⟩, ⟨2, .comp, 0, "c"⟩, ⟨3, .ns, 0, "ovs"⟩, ⟨4, .cp, 0, "p1"⟩, ⟨5, .cp, 0, "p2"⟩,
+              ⟨6, .node, 0, "n2"⟩, ⟨7, .ns, 0, "s"⟩, ⟨8, .cp, 0, "q"⟩, ⟨9, .link, 0, "l"⟩],
+    edges := [⟨1, 2, .has, ""⟩, ⟨2, 3, .has, ""⟩, ⟨3, 4, .connects, ""⟩, ⟨3, 5, .connects, ""⟩, ⟨6, 7, .has, ""⟩,
+              ⟨7, 8, .connects, ""⟩, ⟨9, 4, .connects, ""⟩, ⟨9, 5, .connects, ""⟩, ⟨9, 8, .connects, ""⟩] }
+
+example : WF exPrune = true ∧ HypPrune exPrune [1, 6] [2] [] [] = false ∧
+    (prune exPrune [1, 6] [2] [] []).toOption.map (fun g => g.nodes.map (·.id)) = some [] := by decide
+
+example : (unpeer exPeer [⟨3, 0⟩] [⟨4, 0⟩]).toOption.map (fun r => r.1.nodes.map (·.id)) = some [1, 2] ∧
+    findPeering exPeer [⟨3, 0⟩] [⟨4, 0⟩] = some (3, 4) ∧ freshIfs exPeer 1 = [3] ∧ freshIfs exPeer 2 = [4] := by decide
+
+
+/-! ## Names (wave 3)
+
+The public calls take names.  `Model/RemoveNames.lean` mirrors the lookups (`find_node_by_name`: none or several matches
+raise; `find_component_by_name` …: first neighbour with the name; the name-keyed dictionaries `Topology.nodes`,
+`Node.components`: last element wins) and the collection phase of `prune`.  Names are opaque codes compared for equality
+only, so an element whose name is a prefix of another's, or equals the name of an element of another class, cannot be
+confused by the model — and the correspondence run, which feeds such names, shows the code does not confuse them either. -/
+
+/-- **what a successful `find_node_by_name` returns**: the one element of that class carrying that name -/
+theorem lookup_spec {g : G} {d : Dir} {c : Cls} {name n : Nat} (h : findByName g d c name = .ok n) :
+    ∃ e ∈ g.nodes, e.id = n ∧ e.cls = c ∧ d.nameOf n = some name ∧
+      ∀ e' ∈ g.nodes, e'.cls = c → d.nameOf e'.id = some name → e' = e := findByName_spec h
+
+/-- **by-name = by-id**, for every removal call that takes a name: the call removes the element the lookup designates.
+Graph ids distinct; component names distinct within the node (what `add_component` enforces). -/
+theorem remove_byName (h : G) (d : Dir) (name x : Nat) (hid : (h.nodes.map (·.id)).Nodup) :
+    (findByName h d .node name = .ok x → ((h.nbrs x .has .comp).map d.nameOf).Nodup →
+      (h.kind? x ≠ some kFacility → removeNodeByName h d name = removeNodeApi h x) ∧
+      (h.kind? x = some kFacility → removeFacilityByName h d name = removeFacilityApi h x) ∧
+      (h.kind? x = some kSwitch → removeSwitchByName h d name = removeSwitchApi h x)) ∧
+    (findByName h d .link name = .ok x → removeLinkByName h d name = removeLinkApi h x) ∧
+    (findByName h d .ns name = .ok x → removeNsByName h d name = removeNsApi h x) :=
+  ⟨fun hf hc => ⟨fun hk => removeNodeByName_eq h d name x hid hf hk hc,
+                 fun hk => removeFacilityByName_eq h d name x hid hf hk hc,
+                 fun hk => removeSwitchByName_eq h d name x hid hf hk hc⟩,
+   fun hf => removeLinkByName_eq h d name x hf, fun hf => removeNsByName_eq h d name x hf⟩
+
+/-- **by-name through a parent handle**: `Node.remove_component`, `Node.remove_network_service`,
+`Interface.remove_child_interface` -/
+theorem remove_byName_child (h : G) (d : Dir) (hl : List IfH) (p x name : Nat) (hname : d.nameOf x = some name) :
+    (h.cls? p = some .node → x ∈ h.nbrs p .has .comp → ((h.nbrs p .has .comp).map d.nameOf).Nodup →
+      nodeRemoveComponent h d p name = removeComponentApi h x) ∧
+    ((h.cls? p = some .node ∨ h.cls? p = some .comp) → x ∈ h.nbrs p .has .ns →
+      (∀ y ∈ h.nbrs p .has .ns, d.nameOf y = some name → y = x) → nodeRemoveNs h d p name = removeNsApi h x) ∧
+    (x ∈ h.nbrs p .connects .cp → (∀ y ∈ h.nbrs p .connects .cp, d.nameOf y = some name → y = x) →
+      removeChildByName h d hl p name = removeChild h hl p x) :=
+  ⟨fun hp hx hnd => nodeRemoveComponent_eq h d p x name hp hx hname hnd,
+   fun hp hx hu => nodeRemoveNs_eq h d p x name hp hx hname hu,
+   fun hx hu => removeChildByName_eq h d hl p x name hx hname hu⟩
+
+/-- a name that designates no (non-facility) node — e.g. the name of a service, of a link, or a prefix of a node's name —
+makes `remove_node` raise before anything is touched -/
+theorem remove_node_absent_name (h : G) (d : Dir) (name : Nat)
+    (hno : ∀ e ∈ h.nodes, e.cls = .node → e.kind ≠ kFacility → d.nameOf e.id ≠ some name) :
+    removeNodeByName h d name = .error .topology := removeNodeByName_absent h d name hno
+
+/-- **soundness of the collection phase of `prune`** -/
+theorem prune_collect_sound (g : G) (d : Dir) (hid : (g.nodes.map (·.id)).Nodup) : MarkedOK g d (pruneCollect g d) :=
+  pruneCollect_ok g d hid
+
+/-- **`ExperimentTopology.prune(state)` through its public entry point** — collection phase, by-name pruning of nodes
+and components, guarded loops — on a well-formed topology with unique names deletes exactly the owned structure of what
+the collection phase gathered -/
+theorem prune_api_exact (g : G) (hW : WF g = true) (d : Dir) (hN : NamesOK g d = true) :
+    ∃ D, pruneApi g d = .ok (g.minus D) ∧
+      ∀ y, y ∈ D ↔ OwnedS g ((pruneCollect g d).nodes ++ (pruneCollect g d).comps.map (·.1) ++ (pruneCollect g d).nss ++
+        (pruneCollect g d).ifs) y := pruneApi_exact g hW d hN
+
+/-- names for `exPrune`: node `1` "a" (code 0), node `6` "ab" (code 1: a prefix-related name is just another code), the
+service of node `6` carries the same name as node `1`; nodes `1`, `6` and component `2` are marked -/
+def exDir : Dir :=
+  { names := [(1, 0), (2, 2), (3, 3), (4, 4), (5, 5), (6, 1), (7, 0), (8, 6), (9, 7)], marked := [1, 6, 2] }
+
+example : NamesOK exPrune exDir = true ∧ (findByName exPrune exDir .node 0).toOption = some 1 ∧
+    (findByName exPrune exDir .ns 0).toOption = some 7 ∧ (findByName exPrune exDir .link 0).toOption = none ∧
+    ((pruneCollect exPrune exDir).nodes, (pruneCollect exPrune exDir).comps) = ([1, 6], [(2, 1)]) ∧
+    (pruneApi exPrune exDir).toOption.map (fun g => g.nodes.map (·.id)) = some [] := by decide
 
 end FimVerif.C08
